@@ -310,6 +310,9 @@ func (g *gen) arg(pattern bool) string {
 		return g.dq(pattern)
 	default:
 		n := 2 + g.r.Intn(2)
+		if g.r.Intn(12) == 0 {
+			n = 14 + g.r.Intn(40) // now and then a long one (dozens of pieces)
+		}
 		var parts []string
 		for i := 0; i < n; i++ {
 			if g.r.Intn(2) == 0 {
